@@ -1,4 +1,5 @@
 mod c24;
+mod c24c;
 mod c25;
 mod idx;
 use vkit::{Check, Level};
